@@ -30,7 +30,7 @@ def noNlOnlyLast : List PatchLine → Bool
 def Hunk.writable (h : Hunk) : Bool :=
   h.wfB && !h.lines.isEmpty && h.lines.all (fun pl => plainLine pl.line) && noNlOnlyLast h.lines
     && decide (0 ≤ h.old.start) && decide (0 ≤ h.new.start)
-    && decide (h.old.start + h.old.count ≤ i64Max) && decide (h.new.start + h.new.count ≤ i64Max)
+    && decide (h.old.start + h.old.count ≤ i64Max / 4) && decide (h.new.start + h.new.count ≤ i64Max / 4)
 
 /-- what follows the hunks in the stream does not continue them: not a range line, not a `\` marker -/
 def tailOkUnified (tail : List Line) : Bool :=
